@@ -27,3 +27,10 @@ package mpckks
 //@   copied e2s
 //@   fresh s2e defaultScale mask encoder
 //@   shared noise prec
+
+// ---- shares to encryption (property C16): (aggregate, crs) at the level of the CRS ----
+//@ afunc ShareToEncProtocol.GetEncryption
+//@   property C16
+//@   requires len(opOut.Value) == 2
+//@   ensures implies(isnil(err), val(opOut.Value[0]) == old(val(c0Agg.Value)) && val(opOut.Value[1]) == old(val(crs.Value)))
+//@   ensures implies(isnil(err), len(opOut.Value[0].Coeffs) == len(c0Agg.Value.Coeffs) && len(opOut.Value[1].Coeffs) == len(crs.Value.Coeffs))
